@@ -328,7 +328,14 @@ def r8_walker_variants(ctx):
                 out |= variants(q)
         return out
     n = 0
-    for f in L.group(facts, fid) + [facts.fns[k] for k in facts.fns if k.startswith(fid.rsplit("::", 1)[0] + "::decrypt_object_with")]:
+    # the walker = decrypt_object_if_needed, its closures, and the crate-local helpers of the same impl it delegates to
+    # (a refactoring may move the per-variant dispatch into a helper such as `decrypt_object_with`)
+    walker = list(L.group(facts, fid))
+    for c in sorted(facts.callees.get(fid, ())):
+        f2 = facts.fns.get(c)
+        if f2 is not None and c.startswith(fid.rsplit("::", 1)[0] + "::") and c != fid and "PdfObject" in " ".join(f2.params or []) + (f2.ret or ""):
+            walker += list(L.group(facts, c))
+    for f in walker:
         for i, m in enumerate(facts.matches.get(f.id, [])):
             if "PdfObject" not in m["sty"]:
                 continue
@@ -349,7 +356,7 @@ def r8_walker_variants(ctx):
                                   "the strings inside it stay encrypted (e.g. an array of arrays of strings such as a choice field's "
                                   "/Opt with export values)" % (sorted(vs), sorted(NEED - vs)), "%s:%d" % (m["file"], a["line"]))
     # the dispatch itself has an arm for each of the four
-    mains = [m for f in L.group(facts, fid) for m in facts.matches.get(f.id, []) if "PdfObject" in m["sty"] and len(m["arms"]) >= 4]
+    mains = [m for f in walker for m in facts.matches.get(f.id, []) if "PdfObject" in m["sty"] and len(m["arms"]) >= 4]
     got = set()
     for m in mains:
         for a in m["arms"]:
